@@ -22,12 +22,18 @@ CLAIMED = {
  "C06": ("must-pass-through dataflow on SSA (a sandbox guard querying the policy for the same name dominates every dynamic FilterFunc/FunctionFunc call and built-in arm) + must-assign dataflow for flag inheritance at every derived RenderContext + who-writes-the-flag check",
          "Sound structural argument for the confinement clause on every path of the current source: whenever the context flag is set, a policy query for exactly the invoked name precedes every filter/function invocation, the flag is inherited by every derived context and is never cleared. Liveness ('allowed constructs keep working') is not decided.",
          "Assumes filters/functions are invoked only through values of the named types FilterFunc/FunctionFunc (R06.5 checks none is converted to an interface on render paths); user SecurityPolicy implementations are assumed to answer truthfully. " + COMMON_NOTE, "§2 C06"),
+ "C07": ("static evaluation of constant tables: registration-table alias binding, SSA return-flow check that the registered escape is exactly html.EscapeString of the stringified input, and evaluation of every hand-written escape table's arms with html.UnescapeString inside the checker",
+         "Decides the table/wiring half for every input string: both names reach the same routine, the routine is the trusted library escape with nothing applied afterwards, and the fallback table is complete, correct and well-formed. Stringification of non-string values is value-level and not decided.",
+         "html.EscapeString / html.UnescapeString of the Go standard library are trusted. " + COMMON_NOTE, "§2 C07"),
  "C10": ("typed-AST lint: every lookup in a name → block-body map that reaches a branch condition is decided on the comma-ok result, never on len()/nil of the body; SSA dominance check that both block maps are copied into the parent's context before the parent renders",
          "Decides one necessary condition of block substitution for every template set: presence of a definition is membership (an empty override is honoured), and the hand-over of blocks and parentBlocks along extends is complete on every path. Which definition wins along longer chains, parent() chains and nested blocks are substitution semantics over data and are NOT decided.",
          "Weak clause of a behavioural property, stated as such. " + COMMON_NOTE, "§2 C10"),
  "C11": ("SSA value-origin analysis (the context handed to every nested Render in a template-loading function is a Clone()/NewRenderContext() result on every phi edge), edge-refined must-dataflow on the only / ignoreMissing flags, errors.Is tied to the swallowed error value, freshness lint on every store to a RenderContext scope-map field",
          "Decides non-interference on every path: the included/extended/imported template never renders in the caller's own context, `only` never coexists with read-through access, `ignore missing` swallows only ErrTemplateNotFound of the failed load, and no two contexts (or a context and the caller) ever share a scope map. Option parsing and computed names are not decided.",
          COMMON_NOTE, "§2 C11"),
+ "C16": ("sibling cross-check: the ordered wire-operation lists of serialiser and deserialiser (and of the string helpers) are extracted from the typed AST and compared element-wise (kind, width, signedness, byte order, field, version constant); SSA dominance checks for length narrowing and untrusted length prefixes; type check that no gob-registered node type is encodable; path-expression agreement in the compiled loader",
+         "Decides that serialise∘deserialise is the identity on name, source, timestamps and AST bytes for every value the prefix can represent (larger ones are rejected), that arbitrary input cannot force a huge allocation, and that a compiled template can only ever be rendered from Parse(Source). Rendered equality for every context is argued from the last point, not observed.",
+         "encoding/binary and io.ReadFull semantics trusted; the legacy gob container format is not examined. " + COMMON_NOTE, "§2 C16"),
  "C17": ("error-propagation analysis on SSA: fixed point of 'propagating' functions over the call graph; per call site, value flow of the error result to a Return through phis, named results, %w / NewError / Err-field / errors.Join wrapping; path search from the non-nil edge of every nil test for a nil-error return; text-only (cause-loss) detection; not-found edges of name lookups; top-level Unwrap / empty-output returns",
          "Decides, for every position at which a filter, function, test, loader or nested template can fail, that the failure reaches the top-level return as an error that still wraps its cause, and that a failed name lookup is an error. Errors turned into values inside user callbacks and the documented tolerances are outside.",
          "One frozen exception (timestamp queries in Engine.Load), with its reason. Loader retry loops are recognised: a later loader's success may supersede an earlier loader's failure. " + COMMON_NOTE, "§2 C17"),
